@@ -23,6 +23,10 @@ CLAIMED = {
    text="Deductive: EncryptHeader's post-state is proved field by field (every identifying field zero, size kept, PAX format, exactly one PAX record whose value is base64 of bytes produced only by the library encryptor); EncryptString returns ciphertext on both format branches and rejects unknown formats; at every tar WriteHeader call of archive/Update(both branches)/Delete/Move the header is proved sealed (a successful EncryptHeader on that very object with no store to it since) whenever encryption is configured.",
    note="Assumed: age.Encrypt/openpgp.Encrypt write only ciphertext to their destination; base64/bytes.Buffer transport specs; a tar.Header is written by a callee without precise frame only if handed to it directly. Not decided: that file *content* reaches the tape only through encryption.Encrypt (payload-through-encrypt), wrong-key failure (library behaviour), the constant synthetic PAX header name.",
    design="4.9"),
+ "C14": dict(
+   text="Deductive, for every offset, whence, buffer length and reader state: on a handle in read mode Seek returns exactly the reference offset (start / cursor+offset / size+offset), rejects negative targets and unknown whence values, and leaves the stream cursor at or before the target; Read returns len(p) bytes unless the stream ends, reports a short count only together with an error, and advances the cursor by the count it returns; Truncate leaves the write cache with exactly the requested length and, when growing, only appends (loop invariant over the cache-length ghost).",
+   note="Assumed: the read stream delivers the stored content in order (C03/C04 + io.Pipe), io.CopyN/bytes.Buffer/copy specs, cache.WriteCache as a byte array (lengths and cursors only; byte values are not modelled). Not decided: byte values returned, Write/WriteAt/WriteString contents, O_APPEND behaviour, cursor position after Truncate, 'after close a fresh open reads the final bytes' (C03 + sync contract).",
+   design="4.14"),
  "C15": dict(
    text="Deductive: ghost counters for 'drive opened for writing' and 'index-store mutator called' are proved unchanged on every path of every STFS/File method when the instance is read-only (resp. the handle lacks the write flag); mutating methods are proved to return ErrPermission; the flag word handed to NewFile is proved free of write/append/truncate for every flag value (bit operations exact). Ghost frames force every function between the API and the seams to declare its writes.",
    note="Assumed: the drive is only written through BackendConfig.GetWriter and the index only through the five MetadataPersister mutators (specs in /verif/specs); loggers and write caches do not touch stfs state; configuration fields immutable after construction (checked mechanically). 'Reads return what a writable instance returns' is not decided.",
@@ -36,7 +40,7 @@ NOT_YET = {
  "C07": "not yet built (planned, DESIGN 4.7)", 
  "C11": "not yet built (planned, DESIGN 4.11)",
  "C12": "not yet built (planned, DESIGN 4.12)", "C13": "not yet built (planned, DESIGN 4.13)",
- "C14": "not yet built (planned, DESIGN 4.14)",
+
  "C16": "not yet built (planned, DESIGN 4.16)", "C17": "not yet built (planned, DESIGN 4.17)",
  "C18": "No contract within reach can express or decide it: every clause quantifies over third-party cryptography (age scrypt, go-crypto S2K, minisign KDF) for all passwords; the stfs code involved is format dispatch only (DESIGN section 5).",
 }
